@@ -122,6 +122,8 @@ def gen_pods(rng, types):
 
 
 def explore_resv(rng, name="r"):
+    if rng.random() < 0.25:
+        return explore_contention(rng, name)
     if rng.random() < 0.2:
         s = sc.explore(rng, "reserved", name)           # wider alphabet: daemonsets, nodes, taints, limits, volumes, overrides
         s["options"]["reserved"] = rng.choice(["strict", "strict", "fallback"])
@@ -132,6 +134,50 @@ def explore_resv(rng, name="r"):
             "reserved": rng.choice(["strict", "strict", "fallback"]), "workers": rng.choice([1, 2, 8]), "maxTypes": 0, "create": False}
     return {"name": name, "options": opts, "types": types, "pools": pools, "nodes": [], "ds": [], "scs": [], "pvs": [], "pvcs": [],
             "pods": gen_pods(rng, types)}
+
+
+def explore_contention(rng, name="rc"):
+    """Contention for ONE reservation shared by several instance types: a first, largest, unconstrained pod opens a NodeClaim that is
+    superposed over the big types and so holds the shared id through SEVERAL offerings (plus a second id in another zone); small pods
+    with a zone selector narrow that claim away from the shared id (release); pods that are too big to share a node each open a claim
+    of their own and compete for the shared id (deferred and retried in strict mode).  Stays inside the simple sub-alphabet."""
+    c1, c2 = rng.choice([1, 1, 1, 2]), rng.choice([0, 1, 1, 2])
+    big = rng.choice([2, 2, 3])
+    types = []
+    if rng.random() < 0.5:
+        types.append({"name": "t0", "cpu": 2000, "mem": 8192, "pods": 110, "labels": {"arch": "amd64", "os": "linux"}, "ovCpu": 0, "ovMem": 0,
+                      "offerings": [off("a", "od", 100), off("b", "od", 100)] + ([off("a", "reserved", 1, True, "r1", c1)] if rng.random() < 0.5 else [])})
+    for i in range(big):
+        offs = [off("a", "od", 200 + i), off("b", "od", 200 + i), off("a", "reserved", 1, rng.random() < 0.95, "r1", c1)]
+        if i == 0 or rng.random() < 0.4:
+            offs.append(off("b", "reserved", 1, True, "r2", c2))
+        if rng.random() < 0.2:
+            offs.append(off("c", "od", 210))
+        types.append({"name": "t%d" % (i + 1), "cpu": 4000, "mem": 16384, "pods": 110, "labels": {"arch": "amd64", "os": "linux"}, "ovCpu": 0,
+                      "ovMem": 0, "offerings": offs})
+    pools = [{"name": "p0", "weight": 10, "reqs": [], "labels": {}, "taints": [], "startup": [], "limits": {"cpu": 0, "mem": 0, "nodes": -1}, "types": []}]
+    if rng.random() < 0.3:
+        pools.append(dict(copy.deepcopy(pools[0]), name="p1", weight=1, reqs=[{"key": "ct", "op": "In", "vals": ["od"], "n": 0, "min": 0}]))
+    pods = [sc.plain_pod("w0", rng.choice([2200, 2300, 2500]), 256)]
+    for i in range(rng.choice([1, 1, 2])):          # narrowing pods (they fit next to w0)
+        p = sc.plain_pod("n%d" % i, rng.choice([200, 300, 400]), 128)
+        r = rng.random()
+        if r < 0.7:
+            p["sel"]["zone"] = "b"
+        elif r < 0.85:
+            p["terms"] = [[sc.expr("zone", "NotIn", ["a"])]]
+        else:
+            p["terms"] = [[sc.expr("ct", "In", ["od"])]]
+        pods.append(p)
+    for i in range(c1 + rng.choice([1, 1, 2])):     # contenders: one node each, all want zone a
+        p = sc.plain_pod("c%d" % i, rng.choice([2100, 2150]), 256)
+        p["sel"]["zone"] = "a"
+        pods.append(p)
+    for i in range(rng.choice([0, 0, 1, 2])):
+        pods.append(sc.plain_pod("x%d" % i, rng.choice([300, 900, 1500]), 128))
+    opts = {"preference": "Respect", "minValues": "Strict", "reserved": rng.choice(["strict", "strict", "fallback"]), "workers": rng.choice([1, 2, 8]),
+            "maxTypes": 0, "create": False}
+    return {"name": name, "options": opts, "types": types, "pools": pools, "nodes": [], "ds": [], "scs": [], "pvs": [], "pvcs": [], "pods": pods}
 
 
 def with_workers(s, w):
